@@ -69,37 +69,54 @@ fn c18_bytecode_jumpdest_10() {
 /// Memory::grow: MSIZE stays a multiple of 32, memory never shrinks, grows to exactly
 /// ceil32(new_size) when larger, old contents are preserved and new bytes are zero
 /// (Yellow Paper: memory is zero-initialised, µ_i counts 32-byte words).
-/// Two successive grows with symbolic sizes <= 96 bytes.
+/// Two successive grows, sizes ENUMERATED over {0, 1, 33} x {0, 32, 65} (5 x 5 sizes up to 95:
+/// 135 s / 6.2 GB; symbolic
+/// sizes make the 4 KiB page object symbolically indexed: 11.9 GB / OOM), symbolic marker
+/// byte, symbolic read position.  (`Vec::resize` writes byte by byte: unwind 100 > 96.)
 #[kani::proof]
 #[kani::unwind(100)]
 fn c18_memory_grow() {
+    let first = [0usize, 1, 33];
+    let second = [0usize, 32, 65];
+    let mut i = 0;
+    while i < 3 {
+        let mut j = 0;
+        while j < 3 {
+            grow_case(first[i], second[j]);
+            j += 1;
+        }
+        i += 1;
+    }
+    kani::cover!(i == 3);
+}
+
+fn grow_case(a: usize, b: usize) {
     let mut m = Memory::default();
     assert!(m.len() == 0);
-    let a: usize = kani::any();
-    let b: usize = kani::any();
-    kani::assume(a <= 96 && b <= 96);
     m.grow(a);
     let la = m.len();
-    let ca = (a + 31) / 32 * 32;
-    assert!(la == ca);
-    // write a marker into the first grown region
+    assert!(la == (a + 31) / 32 * 32);
+    // a marker byte at the end of the first region must survive the second grow
     let marker: u8 = kani::any();
-    let p: usize = kani::any();
-    kani::assume(p < la);
-    m[p] = marker;
+    if la > 0 {
+        m[la - 1] = marker;
+    }
     m.grow(b);
     let lb = m.len();
     let cb = (b + 31) / 32 * 32;
     assert!(lb == if cb > la { cb } else { la });
     assert!(lb % 32 == 0 && lb >= b && lb >= la);
+    // (no kani::assume here: the cases run one after the other, an infeasible case would
+    // silently cut off all later ones – the cover witnesses below guard against that)
     let q: usize = kani::any();
-    kani::assume(q < lb);
-    if q == p {
-        assert!(m[q] == marker);
-    } else {
-        assert!(m[q] == 0);
+    if q < lb {
+        if la > 0 && q == la - 1 {
+            assert!(m[q] == marker);
+        } else {
+            assert!(m[q] == 0);
+        }
     }
-    kani::cover!(a == 33 && b == 65 && q == 95 && p == 63 && marker == 7);
-    kani::cover!(a == 64 && b == 1);
-    kani::cover!(a == 0 && b == 0);
+    if a == 33 && b == 65 {
+        kani::cover!(q == 95 && marker == 7);
+    }
 }
